@@ -56,6 +56,7 @@ void sim_status_op(uint64_t op);
 void rt_init(const char* status_path);
 void rt_set_env(uint64_t env_key);        // allocator perturbation key for the next execution
 void rt_env_release();                    // frees spacers / deferred blocks of the execution
+void rt_arena_preserve_live();            // a fault-free execution ended: whatever is still live may be referenced (static/TLS caches), keep it
 void rt_arena_expect_leaks();             // the execution that just ended injected a fault: blocks it leaked are unreferenced, recycle them
 AllocStats& rt_alloc_stats();
 void rt_reset_alloc_stats();
